@@ -452,6 +452,19 @@ func (k *c12run) randDateValue(lo, hi int) string {
 		return "Bet. " + a + " and " + b
 	case 4:
 		return []string{"(unknown)", "", "foo", "about then"}[r.Intn(4)]
+	case 5:
+		switch r.Intn(5) {
+		case 0:
+			return "abt " + k.randSimple(lo, hi)
+		case 1:
+			return "From " + k.randSimple(lo, hi) + " to " + k.randSimple(lo, hi)
+		case 2:
+			return "AFT " + k.randSimple(lo, hi)
+		case 3:
+			return "  " + k.randSimple(lo, hi) + "   "
+		default:
+			return strings.ToUpper(k.randSimple(lo, hi))
+		}
 	}
 	return k.randSimple(lo, hi)
 }
@@ -506,14 +519,21 @@ func (k *c12run) datePair(a, b *gedcom.DateNode, my c12rat) (float64, bool) {
 		}
 	}
 	c.Eval()
+	// the DATE values travel as strings: the model parses them itself (Gedcom.parseDateRange)
+	ws := func(n *gedcom.DateNode) string {
+		if n == nil {
+			return "n"
+		}
+		return hexs(n.Value())
+	}
+	c.Tie(fmt.Sprintf("datesim-s %s %s %s", ws(a), ws(b), my), c12fl(s))
+	// and, for calendar-valid dates, also as the parsed (day month year) triples
 	wa, oka := c12wireRange(a)
 	wb, okb := c12wireRange(b)
-	if oka && okb {
+	if oka && okb && k.r.Chance(1, 4) {
 		c.Tie(fmt.Sprintf("datesim %s %s %s", wa, wb, my), c12fl(s))
-	} else {
-		c.Count("date:outside-model-domain")
 	}
-	return s, oka && okb
+	return s, true
 }
 
 func c12nodeVal(n *gedcom.DateNode) string {
@@ -801,14 +821,23 @@ func (e *c12env) indi(x *gedcom.IndividualNode) string {
 	if len(names) > 0 {
 		ns = strings.Join(names, ",")
 	}
-	b, _ := x.EstimatedBirthDate()
-	d, _ := x.EstimatedDeathDate()
-	wb, ok1 := c12wireRange(b)
-	wd, ok2 := c12wireRange(d)
-	if !ok1 || !ok2 {
-		e.bad = true
+	// the raw record: the DATE values below the events, as strings; parsing, Minimum and the
+	// birth/baptism and death/burial fall-backs are the model's business
+	vals := func(ds gedcom.DateNodes) string {
+		if len(ds) == 0 {
+			return "_"
+		}
+		var out []string
+		for _, d := range ds {
+			out = append(out, hexs(d.Value()))
+		}
+		return strings.Join(out, ",")
 	}
-	return fmt.Sprintf("%d:%s:%s:%s", id, ns, wb, wd)
+	return fmt.Sprintf("%d:%s:%s:%s:%s:%s", id, ns,
+		vals(gedcom.Dates(gedcom.NewNodes(x.Births())...)),
+		vals(gedcom.Dates(gedcom.NewNodes(gedcom.Compound(x.Baptisms(), x.LDSBaptisms()))...)),
+		vals(gedcom.Dates(gedcom.NewNodes(x.Deaths())...)),
+		vals(gedcom.Dates(gedcom.NewNodes(x.Burials())...)))
 }
 
 func (e *c12env) list(xs gedcom.IndividualNodes) string {
@@ -1068,6 +1097,90 @@ func (k *c12run) graphs() {
 
 var c12inconclusive func()
 
+// sharedLists: lists drawn from ONE document, so that the same individual can stand on both sides,
+// over people with overlapping sets of names and equal dates (score ties, chains P0~P1~P3 with
+// P0 !~ P3). The first case is the witness of the fix "list similarity tracks matched individuals
+// per side" ({P0,P1} vs {P3,P1,P0}: 2/3 one way, 5/6 the other before the fix).
+func (k *c12run) sharedLists() {
+	c := k.c
+	names := []string{"John /Smith/", "Jane /Doe/", "Mary /Jones/", "Jon /Smith/"}
+	n := c.N(400, 6000)
+	for i := 0; i < n; i++ {
+		var sb strings.Builder
+		np := 3 + k.r.Intn(3)
+		if i == 0 {
+			np = 3
+		}
+		for p := 0; p < np; p++ {
+			fmt.Fprintf(&sb, "0 @S%d@ INDI\n", p)
+			var ns []string
+			switch {
+			case i == 0:
+				ns = [][]string{{names[0]}, {names[0], names[1]}, {names[1]}}[p]
+			default:
+				ns = append(ns, names[k.r.Intn(len(names))])
+				if k.r.Chance(1, 2) {
+					ns = append(ns, names[k.r.Intn(len(names))])
+				}
+				if k.r.Chance(1, 8) {
+					ns = nil
+				}
+			}
+			for _, nm := range ns {
+				fmt.Fprintf(&sb, "1 NAME %s\n", nm)
+			}
+			if i == 0 || k.r.Chance(3, 4) {
+				fmt.Fprintf(&sb, "1 BIRT\n2 DATE %d\n", 1900+k.r.Intn(2)*k.r.Intn(2))
+			}
+			if i == 0 || k.r.Chance(1, 2) {
+				sb.WriteString("1 DEAT\n2 DATE 1950\n")
+			}
+		}
+		text := sb.String()
+		if i == 0 {
+			text = strings.ReplaceAll(strings.ReplaceAll(text, "DATE 1901", "DATE 1900"), "DATE 1900", "DATE 1900")
+		}
+		doc, err := gedcom.NewDocumentFromString(text)
+		if err != nil {
+			panic("c12: generated document does not decode: " + err.Error())
+		}
+		indis := doc.Individuals()
+		e := &c12env{ids: map[*gedcom.IndividualNode]int{}}
+		for j, x := range indis {
+			e.ids[x] = j
+		}
+		pick := func(repeats bool) gedcom.IndividualNodes {
+			var xs gedcom.IndividualNodes
+			perm := k.r.Perm(len(indis))
+			m := 1 + k.r.Intn(len(indis))
+			for _, j := range perm[:m] {
+				xs = append(xs, indis[j])
+			}
+			if repeats {
+				xs = append(xs, xs[k.r.Intn(len(xs))])
+			}
+			return xs
+		}
+		rep := k.r.Chance(1, 6)
+		xs, ys := pick(rep), pick(rep && k.r.Bool())
+		o := c12randOpts(k.r)
+		if i == 0 {
+			xs = gedcom.IndividualNodes{indis[0], indis[1]}
+			ys = gedcom.IndividualNodes{indis[2], indis[1], indis[0]}
+			o = c12opts{def: true}
+		} else if k.r.Chance(1, 2) {
+			o.minSim = c12rat{0, 1}
+		}
+		k.listPair(e, text, xs, ys, o)
+		if rep {
+			c.Count("list:one-document, shared people, with repeats")
+		} else {
+			c.Count("list:one-document, shared people, no repeats")
+		}
+		c.Nontrivial(fmt.Sprintf("shared:%d", i))
+	}
+}
+
 func c12compare(req, impl, model string) bool {
 	ok, tight := c12compare1(req, impl, model)
 	if !ok && tight {
@@ -1084,7 +1197,7 @@ func c12compare1(req, impl, model string) (bool, bool) {
 	mf := strings.Fields(model)
 	xf := strings.Fields(impl)
 	switch cmd {
-	case "jaro", "datesim":
+	case "jaro", "datesim", "datesim-s":
 		return len(mf) == 1 && len(xf) == 1 && c12close(xf[0], mf[0]), false
 	case "jw", "strsim", "sim-indi", "sim-list", "sim-fam":
 		if len(mf) < 2 || len(xf) != 1 {
@@ -1114,6 +1227,7 @@ func init() {
 		k.strings()
 		k.dates()
 		k.graphs()
+		k.sharedLists()
 		c.Notes = append(c.Notes, "scores compared within 1e-9 of the model's exact fraction; bounds, symmetry, identity, neutral 0.5, cut-off and monotonicity are checked exactly on the float64 values (list/weighted symmetry within 1e-12: summation order)")
 	}
 }
